@@ -121,8 +121,50 @@ def symbol (scaling rmin : Option Rat) (nb : Int) (x : Option Rat) : Int :=
       if r < 1 then truncInt (r * (nb : Rat)) else nb - 1
   | _, _, _ => nb - 1
 
+/-- the symbol as the C code computes it in floating point: each of the three
+operations (`x - range_min`, `scaling * ·`, `· * n_bins`) is followed by a
+rounding `rnd` to the working format (finite operands; `symbol` is the case
+`rnd = id`) -/
+def symbolRnd (rnd : Rat → Rat) (s m : Rat) (nb : Int) (v : Rat) : Int :=
+  let r := rnd (s * rnd (v - m))
+  if r < 1 then truncInt (rnd (r * (nb : Rat))) else nb - 1
+
 /-- does some sample `k < T` satisfy `p`? (a histogram bin is positive) -/
 def anyK (T : Nat) (p : Nat → Bool) : Bool := (List.range T).any p
+
+/-! ### float → integer conversions (C11 6.3.1.4: undefined unless the
+truncated value is representable in the target type) -/
+
+/-- the value handed to `(long)` / `(int)` for one sample, `none` when no
+conversion is executed (the `else` branch: NaN, or rescaled ≥ 1) -/
+def castArg (scaling rmin : Option Rat) (nb : Int) (x : Option Rat) : Option Rat :=
+  match scaling, rmin, x with
+  | some s, some m, some v =>
+      let r := s * (v - m)
+      if r < 1 then some (r * (nb : Rat)) else none
+  | _, _, _ => none
+
+/-- the conversion of `r` to a signed integer type of `bits` bits is defined -/
+def castDefined (bits : Nat) (r : Rat) : Bool :=
+  decide (-((2 : Int) ^ (bits - 1)) ≤ truncInt r ∧ truncInt r < (2 : Int) ^ (bits - 1))
+
+/-- every conversion executed for the `N × T` samples of `d` is defined -/
+def castsOK (bits N T : Nat) (scaling rmin : Option Rat) (nb : Int) (d : Nat → Nat → Option Rat) :
+    Bool :=
+  (List.range N).all fun i => (List.range T).all fun k =>
+    match castArg scaling rmin nb (d i k) with
+    | some r => castDefined bits r
+    | none => true
+
+/-- the variant "convert first, clamp afterwards"
+(`sym = (int)(rescaled * n_bins); if (sym >= n_bins) sym = n_bins - 1;`):
+a NaN sample (or NaN scaling) reaches the conversion — undefined. -/
+def castsOKConvertFirst (bits N T : Nat) (scaling rmin : Option Rat) (nb : Int)
+    (d : Nat → Nat → Option Rat) : Bool :=
+  (List.range N).all fun i => (List.range T).all fun k =>
+    match scaling, rmin, d i k with
+    | some s, some m, some v => castDefined bits (s * (v - m) * (nb : Rat))
+    | _, _, _ => false
 
 /-! ### `_mutual_information(anomaly, n_samples, N, n_bins, scaling, range_min, symbolic, hist, hist2d, mi)`
 arrays: 0 anomaly (float32 N×T), 1 symbolic (long N×T), 2 hist (long N×nb),
@@ -208,12 +250,32 @@ def ecfbTrace (N : Nat) : List Acc :=
 
 def cfbSizes (N : Nat) : List Nat := [N * N * 4, N * N * 4, N * N * 4]
 
-/-- `ResNetwork.vertex_current_flow_betweenness(i)`: a node index outside
-`[0, N)` is rejected -/
-def vcfbCall (N : Nat) (i : Int) : Verdict :=
-  if i < 0 ∨ (N : Int) ≤ i then .raise else verdictOf (cfbSizes N) (vcfbTrace N i)
+/-- sizes when the object *holds* admittance / R matrices of `Na × Na` entries
+while `self.N = N` (`Network.adjacency = …` changes `N`, the matrices are only
+recomputed by `update_resistances`); the output `ECFB` is allocated from `N`. -/
+def cfbSizesHeld (N Na : Nat) : List Nat := [Na * Na * 4, Na * Na * 4, N * N * 4]
 
+/-- `ResNetwork.vertex_current_flow_betweenness(i)` on an object whose held
+matrices are `Na × Na`: a node index outside `[0, N)` is rejected (IndexError),
+and `_vertex_current_flow_betweenness` (numerics.pyx) rejects arrays whose shape
+is not `(N, N)` (ValueError). -/
+def vcfbCall (N : Nat) (i : Int) (Na : Nat) : Verdict :=
+  if i < 0 ∨ (N : Int) ≤ i then .raise
+  else if Na ≠ N then .raise
+  else verdictOf (cfbSizesHeld N Na) (vcfbTrace N i)
+
+/-- `ResNetwork.edge_current_flow_betweenness()`, same shape test -/
+def ecfbCall (N Na : Nat) : Verdict :=
+  if Na ≠ N then .raise else verdictOf (cfbSizesHeld N Na) (ecfbTrace N)
+
+/-- the method as pinned: any node index reaches the C routine -/
 def vcfbCallPinned (N : Nat) (i : Int) : Verdict := verdictOf (cfbSizes N) (vcfbTrace N i)
+
+/-- the wrappers before the shape test was added (round 2): `self.N` is trusted -/
+def vcfbCallStale (N : Nat) (i : Int) (Na : Nat) : Verdict :=
+  if i < 0 ∨ (N : Int) ≤ i then .raise
+  else verdictOf (cfbSizesHeld N Na) (vcfbTrace N i)
+def ecfbCallStale (N Na : Nat) : Verdict := verdictOf (cfbSizesHeld N Na) (ecfbTrace N)
 
 /-! ### data → symbols, and the wrappers of the two mutual-information routines -/
 
@@ -242,6 +304,7 @@ data without infinities: shapes (N,T) and (N2,T2), entries NaN or finite.
 def tmiCall (N T N2 T2 : Nat) (nb : Int) (dO dS : Data) : Verdict :=
   if nb < 1 then .raise
   else if (N2, T2) ≠ (N, T) then .raise
+  else if (2 : Int) ^ 31 ≤ nb then .raise       -- Cython `int n_bins`: OverflowError
   else if N * T = 0 then .raise
   else
     let all := dO.flat ++ dS.flat
@@ -252,12 +315,24 @@ def tmiCall (N T N2 T2 : Nat) (nb : Int) (dO dS : Data) : Verdict :=
         if b - a = 0 then .raise
         else
           let s : Option Rat := some (1 / (b - a))
-          verdictOf (tmiSizes N T N2 T2 nb.toNat)
-            (tmiTrace N T nb.toNat (fun i k => symbol s mn nb (dO.at i k))
-                                   (fun i k => symbol s mn nb (dS.at i k)))
+          if castsOK 32 N T s mn nb dO.at && castsOK 32 N T s mn nb dS.at then
+            verdictOf (tmiSizes N T N2 T2 nb.toNat)
+              (tmiTrace N T nb.toNat (fun i k => symbol s mn nb (dO.at i k))
+                                     (fun i k => symbol s mn nb (dS.at i k)))
+          else .oob
     | _, _ =>
         verdictOf (tmiSizes N T N2 T2 nb.toNat)
           (tmiTrace N T nb.toNat (fun _ _ => nb - 1) (fun _ _ => nb - 1))
+
+/-- the wrapper around a kernel that converts first and clamps afterwards -/
+def tmiCallConvertFirst (N T : Nat) (nb : Int) (dO dS : Data) : Verdict :=
+  let all := dO.flat ++ dS.flat
+  let mn := optMin all
+  let s : Option Rat := match mn, optMax all with
+    | some a, some b => some (1 / (b - a))
+    | _, _ => none
+  if castsOKConvertFirst 32 N T s mn nb dO.at && castsOKConvertFirst 32 N T s mn nb dS.at then
+    .safe else .oob
 
 /-- the pinned wrapper: neither `n_bins = 0` nor the surrogate shape is checked
 (a surrogate sample outside the passed array is foreign memory; its symbol is
@@ -288,9 +363,34 @@ kernel, `scaling`/`rmin` what the wrapper computes. -/
 def miCall (N T : Nat) (nb : Int) (zdiv : Bool) (scaling rmin : Option Rat) (d : Data) :
     Verdict :=
   if nb < 0 then .raise
+  else if (2 : Int) ^ 31 ≤ nb then .raise  -- Cython `int n_bins`: OverflowError
   else if N * T = 0 then .raise            -- `anomaly.min()` of an empty array
   else if zdiv then .raise                 -- ZeroDivisionError (constant data)
-  else verdictOf (miSizes N T nb.toNat)
+  else if castsOK 64 N T scaling rmin nb d.at then
+    verdictOf (miSizes N T nb.toNat)
         (miTrace N T nb.toNat (fun i k => symbol scaling rmin nb (d.at i k)))
+  else .oob
+
+/-- `_cython_calculate_mutual_information` down to the kernel, for the float64
+array `a` of shape (N, T) that results from normalisation and transposition:
+
+    range_min = float(anomaly.min()); range_max = float(anomaly.max())
+    scaling = 1./(range_max - range_min)                    # ZeroDivisionError
+    mutual_information(to_cy(anomaly, FIELD), n_samples, N, n_bins, scaling, range_min)
+
+`rnd` is the conversion double → float applied by `to_cy(·, FIELD)` to every
+sample and by Cython to the argument `float range_min`; `sc` is the `float
+scaling` that reaches the kernel (`none`: NaN or +inf).  NaN anywhere makes
+minimum, maximum and scaling NaN. -/
+def miWrapperCall (rnd : Rat → Rat) (N T : Nat) (nb : Int) (sc : Option Rat) (a : Data) : Verdict :=
+  let mn := optMin a.flat
+  let mx := optMax a.flat
+  let zdiv : Bool := match mn, mx with
+    | some x, some y => decide (y - x = 0)
+    | _, _ => false
+  let sc' : Option Rat := match mn, mx with
+    | some _, some _ => sc
+    | _, _ => none
+  miCall N T nb zdiv sc' (mn.map rnd) (a.map fun row => row.map fun x => x.map rnd)
 
 end Pyunicorn.Access
